@@ -367,6 +367,36 @@ func checkC16(e *Engine, r *Report) {
 		ok, why := authzScreenInspectsAll(e)
 		r.Check(ok, "992c › nested vesting messages screened", e.Pos(dec.Pos()), "checkDisabledMsgs inspects every message and recurses into MsgExec", why)
 	})
+
+	r.Rule("R4", "KEY-INJECTIVE", "a proof is stored and looked up under a key that is injective in the account address (prefix ‖ the full address bytes): HasProof(a) can hold only for the very address whose proof was stored; the keeper's Save/Has/Get build their key with that one builder from their address argument", 4, func() {
+		e.checkKeyBuilders(r, pkgVauthTypes, []string{"KeyProofExternalOwnedAccountByAddress"}, "HasProofExternalOwnedAccount answers true for an address that never proved ownership (any address sharing the truncated bytes of a proven one): a vesting account can be created for it")
+		spec := CallSpec{pkgVauthTypes, "", "KeyProofExternalOwnedAccountByAddress"}
+		n := 0
+		for _, cs := range e.repoCallSites(func(c ssa.CallInstruction) bool { return isCallTo(c, spec) }) {
+			f := topFn(cs.Fn)
+			if pkgPathOf(f) != pkgVauthKeeper {
+				continue
+			}
+			n++
+			arg := resolveLocal(cs.Call.Common().Args[0])
+			okArg := false
+			// the address argument of the keeper method, or a field of its proof argument decoded with AccAddressFromBech32
+			if p, isP := arg.(*ssa.Parameter); isP && p.Parent() == f {
+				okArg = true
+			}
+			sl := backSlice(cs.Call.Common().Args[0], SliceOpts{ThroughCallArgs: alwaysThrough})
+			if sl.Has(func(v ssa.Value) bool {
+				c, ok := v.(*ssa.Call)
+				return ok && (isCallTo(c, CallSpec{pkgSdkTypes, "", "AccAddressFromBech32"}) || isCallTo(c, CallSpec{pkgSdkTypes, "", "MustAccAddressFromBech32"}))
+			}) && (hasFieldLoad(sl, "ProofExternalOwnedAccount", "Account") || hasFieldLoad(sl, "ProofExternalOwnedAccount", "Address")) {
+				okArg = true
+			}
+			r.Check(okArg, "proof key argument › "+fnKey(cs.Fn), e.Pos(cs.Call.Pos()), "key built from the method's own address (or the proof's account)", "the proof record is addressed by something other than the account it is about")
+		}
+		if n == 0 {
+			r.Bad("proof key users", e.Pos(e.Fn(pkgVauthTypes, "KeyProofExternalOwnedAccountByAddress").Pos()), "no keeper function builds the proof key with KeyProofExternalOwnedAccountByAddress")
+		}
+	})
 }
 
 // authzScreenInspectsAll: in checkDisabledMsgs no return that may carry a nil error leaves the message loop in the
